@@ -14,25 +14,26 @@ from .common import (BINARY_CLASSES, ORACLE_CLASS, UNARY_MINUS, PERCENT, PY_BINO
 
 PROPERTY = 'C01'
 EXPLANATION = (
-    'Decided from source, by interpreting it on witness formulas (constant propagation; nothing of the library is '
-    "imported or run): (C01.1) the precedence/associativity table read by the shunting-yard loop realises Excel's "
-    'operator classes as a relation; (C01.2) the tree FormulaParser.parse builds for =A1 op1 B1 op2 C1, for every '
-    'ordered pair of the 12 binary operators - tokenizer, its post-processing, the shunting-yard loop and build_ast '
-    "interpreted as written, the tree read back through the node classes' own eval with symbolic operator functions "
-    '- is ((A1 op1 B1) op2 C1) exactly when op1 binds at least as tightly as op2; (C01.3) reverse-Polish operand '
-    'order: first pop -> right operand -> second argument of the operator function; (C01.4) =A1 op B1 parsed and '
-    'evaluated through the real operator functions on number cells computes A1 op B1 for the operand pairs (7,2), '
-    '(2,7), (5,5), prefix minus negates, the arithmetic special methods of the value classes compute self (op) '
-    'other on converted operands and divide-by-a-converted-zero gives #DIV/0! for every spelling of zero; (C01.5) '
-    'unary minus / plus on either side of every binary operator, doubled, before parentheses, and percent literals '
-    "next to every binary operator give the trees of Excel's grammar; (C01.6) a percent sign after a number literal "
-    'yields one operand (value/100) or operand + postfix operator, percent reaches the parser as a postfix operator '
-    '(known finding F01), percent factors agree; (C01.7) the scientific-notation guard accepts Excel number '
-    'mantissas; (C01.8) nothing evaluation-dependent is stored on operator/operand nodes and operator trees '
-    'evaluated twice on the same nodes with changed cell values use the values of that evaluation; (C01.9) '
-    'parentheses, chains of one operator, mixed chains, and blanks around operators and at both ends leave / give '
-    'the expected trees.'
-    ' (C01.10) one witness workbook holding the parenthesised / chained / plain formula twins side by side and operators over cells that hold 0, compiled and evaluated as written: every cell equals the same formula evaluated on its own. (C01.7) the scientific-notation guard is decided by tokenizing witness formulas.')
+    'Decided from source, by interpreting it on witness formulas (constant propagation; nothing of the library is imported '
+    "or run): (C01.1) the precedence/associativity table read by the shunting-yard loop realises Excel's operator classes "
+    'as a relation; (C01.2) the tree FormulaParser.parse builds for =A1 op1 B1 op2 C1, for every ordered pair of the 12 '
+    'binary operators - tokenizer, its post-processing, the shunting-yard loop and build_ast interpreted as written, the '
+    "tree read back through the node classes' own eval with symbolic operator functions - is ((A1 op1 B1) op2 C1) exactly "
+    'when op1 binds at least as tightly as op2; (C01.3) operand and argument order on twelve witness formulas with non-'
+    'commutative operators, parsed and read back end to end; (C01.4) =A1 op B1 parsed and evaluated through the real '
+    'operator functions on number cells computes A1 op B1 for the operand pairs (7,2), (2,7), (5,5), prefix minus negates, '
+    'the arithmetic special methods of the value classes compute self (op) other on converted operands and divide-by-a-'
+    'converted-zero gives #DIV/0! for every spelling of zero; (C01.5) unary minus / plus on either side of every binary '
+    "operator, doubled, before parentheses, and percent literals next to every binary operator give the trees of Excel's "
+    'grammar; (C01.6) by tokenizing and parsing witnesses: after a reference, a parenthesised expression or a call the '
+    'percent sign is a postfix operator token (known finding F01), after a number literal the literal stays one operand '
+    '(value/100) or carries the postfix operator, the factor is 1/100; (C01.7) the scientific-notation guard accepts Excel '
+    'number mantissas; (C01.8) nothing evaluation-dependent is stored on operator/operand nodes and operator trees '
+    'evaluated twice on the same nodes with changed cell values use the values of that evaluation; (C01.9) parentheses, '
+    'chains of one operator, mixed chains, and blanks around operators and at both ends leave / give the expected trees. '
+    '(C01.10) one witness workbook holding the parenthesised / chained / plain formula twins side by side and operators '
+    'over cells that hold 0, compiled and evaluated as written: every cell equals the same formula evaluated on its own. '
+    '(C01.7) the scientific-notation guard is decided by tokenizing witness formulas.')
 NOT_DECIDED = ('that the tokenizer emits the right token stream for every rendering (blanks, '
                'redundant parentheses), and the numeric values computed')
 TRUSTED = ['Excel operator classes transcribed from the property statement (rules/common.py)', 'workbook scenarios: pandas storage of range arrays as row-major rows, numpy on Python numbers (IEEE results, 64-bit integer wrap), dateutil.parser.parse rejecting texts that are no dates, openpyxl address arithmetic, inspect.signature built from the FunctionDef']
